@@ -1,7 +1,146 @@
-From Coq Require Import String Ascii ZArith List.
+(** C29 — Diagnostic rendering is total and faithful.
+    Theorems about the executable model coq/C29/Render.v of DiagnosticsRenderer
+    (render_diagnostic / render_snippet / wrap), which is tied to /repo's current source by
+    the differential harness props/C29 on every run.  Vocabulary (in_source, common_indent,
+    removed, shown, marks, words) is defined in Spec.v independently of the renderer. *)
+From Coq Require Import String Ascii ZArith Bool List.
 From V.Lib Require Import Outcome.
-From V.C29 Require Import Render.
-Import ListNotations. Open Scope Z_scope.
-Example smoke : wrap_list (s "a b") 60 [] [] = [s "a b"].
-Proof. vm_compute. reflexivity. Qed.
-Print Assumptions smoke.
+From V.C29 Require Import Render Spec ProofsBase ProofsSnippet ProofsDiag ProofsWrap ProofsWords.
+Import ListNotations.
+Open Scope Z_scope.
+
+(** render_total.  Preconditions the code relies on, all explicit in [diag_ok]: when the
+    diagnostic has a span, that span and the span of every child lie inside the source
+    (lines exist, 0 <= column <= line length, start <= end); labels exist only with a span
+    (built into the types).  Nothing is required of titles, labels or messages. *)
+Theorem render_total : forall src d, diag_ok src d -> exists out, render_diagnostic src d = Ok out.
+Proof. exact render_diagnostic_total. Qed.
+Print Assumptions render_total.
+
+Definition ex_src : list str := [s "x = 1"; spaces 16 ++ s "foo(a, b)"; spaces 16 ++ s "bar(c)"].
+Definition ex_diag : Diag :=
+  mkDiag Error (s "T") (s "f.py") (Some (mkSpan (mkLoc 1 0) (mkLoc 1 1), Some (s "main"))) None
+         [mkSub Note (Some (mkSpan (mkLoc 2 3) (mkLoc 3 20), Some (s "sub"))) (Some (s "see also"))].
+Example render_total_nonvacuous :
+  diag_ok ex_src ex_diag /\
+  render_diagnostic ex_src ex_diag =
+  Ok (map s ["Error: T (at f.py:1:0)"; "  | "; "1 | x = 1"; "  | ^ main"; "  | ";
+             "2 |              foo(a, b)"; "  | ----------------------"; "3 |              bar(c)";
+             "  | ----------------- sub"; ""; "Note: see also"]%string).
+Proof.
+  split; [|vm_compute; reflexivity].
+  unfold diag_ok, ex_diag, in_source; simpl. repeat split; try (vm_compute; congruence).
+  constructor; [|constructor]. unfold sub_ok, in_source; simpl. repeat split; vm_compute; congruence.
+Qed.
+
+(** The precondition matters: a span that leaves the source makes the renderer raise. *)
+Example render_raises_outside_source :
+  exists e, render_diagnostic [s "x"] (mkDiag Error (s "T") (s "f.py") (Some (mkSpan (mkLoc 1 0) (mkLoc 3 0), None)) None []) = Raise e.
+Proof. eexists. vm_compute. reflexivity. Qed.
+
+(** Every range of lines has a common indentation, so the next theorems are never vacuous. *)
+Theorem common_indent_defined : forall src lo cnt, (0 < cnt)%nat ->
+  exists c, common_indent src lo (lo + Z.of_nat cnt - 1) c.
+Proof. exact common_indent_exists. Qed.
+Print Assumptions common_indent_defined.
+
+(** Only indentation is cut: [removed] is 0 unless the common indentation exceeds 12, it
+    keeps at least 4 columns of it, never reaches into the span, and every cut column of
+    every line in the range (shown or elided) holds a whitespace character. *)
+Theorem trim_only_indentation : forall src sp_ lo c,
+  in_source src sp_ -> common_indent src lo (l_line (s_end sp_)) c ->
+  let remove := removed c sp_ in
+  0 <= remove <= Z.of_nat c /\ remove <= l_col (s_start sp_) /\ remove <= l_col (s_end sp_) /\
+  (Z.of_nat c <= 12 -> remove = 0) /\ (12 < Z.of_nat c -> 4 <= Z.of_nat c - remove) /\
+  forall n k, lo <= n <= l_line (s_end sp_) -> (Z.of_nat k < remove) ->
+              is_ws (nth k (line_at src n) sp) = true.
+Proof.
+  intros src sp_ lo c IS CI remove. pose proof IS as (_ & _ & _ & H4 & H5 & _).
+  pose proof (removed_bounds c sp_ ltac:(apply H4) ltac:(apply H5)) as (R1 & R2 & R3 & R4 & R5).
+  repeat split; try assumption; try apply R1.
+  intros n k Hn Hk. apply (common_indent_ws src lo (l_line (s_end sp_)) c); [exact CI | exact Hn |].
+  fold remove in R1. apply Nat2Z.inj_lt. apply Z.lt_le_trans with remove; [exact Hk | apply R1].
+Qed.
+Print Assumptions trim_only_indentation.
+
+(** lines_shown + markers_exact, single-line span.  With p = min(prefix_lines, line - 1)
+    context lines: the rows are an empty gutter row, the p context lines and the spanned line
+    -- each with its true number and minus [removed] columns --, then the marker row whose
+    display column k carries the marker iff source column k + removed lies in
+    [start.column, end.column), followed by the label part. *)
+Theorem lines_shown_markers_exact_single : forall src sp_ label primary p0 c,
+  in_source src sp_ -> 0 <= p0 ->
+  let L := l_line (s_start sp_) in let p := Z.min p0 (L - 1) in
+  common_indent src (L - p) (l_line (s_end sp_)) c ->
+  L = l_line (s_end sp_) ->
+  let remove := removed c sp_ in
+  exists m tail rest,
+    render_snippet_rows src sp_ label primary p0 =
+      Ok ([(None, [])] ++ map (shown src remove) (zseq (L - p) (Z.to_nat p))
+            ++ [shown src remove L; (None, m ++ tail)] ++ rest)
+    /\ marks (if primary then "^"%char else "-"%char) remove (l_col (s_start sp_)) (l_col (s_end sp_)) m
+    /\ label_part label (length m) tail rest.
+Proof. intros. apply snippet_single_rows; assumption. Qed.
+Print Assumptions lines_shown_markers_exact_single.
+
+(** lines_shown + markers_exact, multi-line span: first line marked from start.column to its
+    end, an ellipsis row iff lines are elided, last line marked from column 0 to end.column. *)
+Theorem lines_shown_markers_exact_multi : forall src sp_ label (primary : bool) p0 c,
+  in_source src sp_ -> 0 <= p0 ->
+  let L1 := l_line (s_start sp_) in let L2 := l_line (s_end sp_) in let p := Z.min p0 (L1 - 1) in
+  common_indent src (L1 - p) L2 c ->
+  L1 < L2 ->
+  let remove := removed c sp_ in let hc : ascii := if primary then "^"%char else "-"%char in
+  exists m1 m2 tail rest,
+    render_snippet_rows src sp_ label primary p0 =
+      Ok ([(None, [])] ++ map (shown src remove) (zseq (L1 - p) (Z.to_nat p))
+            ++ [shown src remove L1; (None, m1)]
+            ++ (if L1 + 1 <? L2 then [(@None Z, s "...")] else @nil Row)
+            ++ [shown src remove L2; (None, m2 ++ tail)] ++ rest)
+    /\ marks hc remove (l_col (s_start sp_)) (Z.of_nat (length (line_at src L1))) m1
+    /\ marks hc remove 0 (l_col (s_end sp_)) m2
+    /\ label_part label (length m2) tail rest.
+Proof. intros. apply snippet_multi_rows; assumption. Qed.
+Print Assumptions lines_shown_markers_exact_multi.
+
+(** Rows become buffer lines by prefixing a gutter of constant width, so display column k of
+    a marker row sits under display column k of the source row above it. *)
+Theorem gutter_constant_width : forall w (r : Row),
+  (length (match fst r with None => [] | Some n => dec n end) <= w)%nat ->
+  exists g, show_row w r = g ++ snd r /\ length g = (w + 3)%nat.
+Proof. exact gutter_aligned. Qed.
+Print Assumptions gutter_constant_width.
+
+(** wrap_at_space, full strength, is REFUTED: textwrap's default break_long_words cuts a
+    70-character word (finding; same input replayed on the real renderer by the corpus). *)
+Theorem wrap_at_space_refuted : exists text,
+  forallb printable text = true /\
+  flat_map words (wrap_list text MAX_LABEL_LINE_LEN [] []) <> words text.
+Proof. exists long_word_text. exact long_word_refutes. Qed.
+Print Assumptions wrap_at_space_refuted.
+
+(** wrap_at_space_partial / words_preserved for wrapped text: if every paragraph consists of
+    printable characters and none of its words or whitespace runs is longer than the width,
+    the words of the produced lines are exactly the words of the text, in order -- no word is
+    lost or broken, i.e. lines are broken only at whitespace.  (The model of textwrap is
+    validated against the code for text in which no "-" is directly followed by a letter,
+    digit or "_"; the hyphen break of other text is the second listed finding.) *)
+Theorem wrap_at_space_partial : forall text width ii si,
+  Forall (para_ok width) (splitlines text) -> all_spaces ii -> all_spaces si ->
+  flat_map words (wrap_list text width ii si) = words text.
+Proof. exact wrap_words. Qed.
+Print Assumptions wrap_at_space_partial.
+
+Example wrap_at_space_partial_nonvacuous :
+  let t := s "Expected argument of type `int`, got `bool` in the call to the function defined above" in
+  Forall (para_ok 60) (splitlines t) /\ length (wrap_list t 60 [sp] (spaces 3)) = 2%nat.
+Proof. split; [|vm_compute; reflexivity]. repeat constructor; vm_compute; intros; congruence. Qed.
+
+(** words_preserved for labels: the marker-row tail and the continuation rows of a snippet
+    carry exactly the words of the label. *)
+Theorem label_words_preserved : forall label lbl mlen tail rest,
+  nonempty label = Some lbl -> label_part label mlen tail rest ->
+  Forall (para_ok MAX_LABEL_LINE_LEN) (splitlines lbl) ->
+  flat_map words (tail :: map snd rest) = words lbl.
+Proof. exact label_words. Qed.
+Print Assumptions label_words_preserved.
